@@ -48,20 +48,57 @@ def _cpu_alarm(signum, frame):
     raise Timeout()
 
 
+_FAST = [False]     # set once enough CONFIRMED hangs exist in this run (all worker processes together)
+HANG_BUDGET = 6     # confirmed hangs after which every further call gets only a 1 s wall-clock alarm
+HANG_STOP = 12      # confirmed hangs after which the remaining work items are skipped (the verdict is settled)
+
+
+def confirmed_hangs():
+    p = os.environ.get('C06_HANG_FILE')
+    try:
+        return os.path.getsize(p) if p else 0
+    except OSError:
+        return 0
+
+
+def _note_hang():
+    p = os.environ.get('C06_HANG_FILE')
+    if p:
+        with open(p, 'ab') as f:
+            f.write(b'h')
+
+
 def guarded(fn, *args):
     """fn(*args) under the wall-clock alarm; if that fires (the box may simply be overloaded), run the call
-    again under a CPU-time budget (ITIMER_PROF): Timeout only when the call really consumes HANG_CPU_S."""
+    again under a CPU-time budget (ITIMER_PROF): Timeout only when the call really consumes HANG_CPU_S.
+    Confirmed hangs are counted across all worker processes; after HANG_BUDGET of them a non-terminating call is
+    an established fact of this run and every further call is cut after 1 s instead of 25 s."""
+    if _FAST[0]:
+        return timed(fn, *args, seconds=1.0)
     try:
         return timed(fn, *args, seconds=HANG_S)
     except Timeout:
-        pass
+        if confirmed_hangs() >= HANG_BUDGET:
+            _FAST[0] = True
+            raise
     old = signal.signal(signal.SIGPROF, _cpu_alarm)
     signal.setitimer(signal.ITIMER_PROF, HANG_CPU_S)
     try:
         return fn(*args)
+    except Timeout:
+        _note_hang()
+        raise
     finally:
         signal.setitimer(signal.ITIMER_PROF, 0)
         signal.signal(signal.SIGPROF, old)
+
+
+def settled():
+    """True when the remaining work of this run can be skipped: non-termination is already established."""
+    n = confirmed_hangs()
+    if n >= HANG_BUDGET:
+        _FAST[0] = True
+    return n >= HANG_STOP
 
 
 # ============================================================================================
@@ -697,14 +734,41 @@ def merge(chk, stream, idx, res):
     chk.corr_cases += res['corr']
 
 
+def primed_graph(triples, gtop, epi):
+    """The same graph reached by IN-PLACE edits of a live object that was queried and serialised before: built with one
+    variable spelled differently, asked for everything (variables, edges, ..., an encode), then given its final
+    triples and markers through the public attributes.  Nothing remembered from before the edit may be used."""
+    vs = sorted({t[0] for t in triples} - {gtop})
+    if not vs:
+        return None
+    v = vs[len(triples) % len(vs)]
+    ren = lambda x: 'zq9' if x == v else x      # noqa
+    old = [(ren(a), r, ren(b) if r != ':instance' else b) for a, r, b in triples]
+    g = build_graph({'triples': old, 'gtop': gtop, 'epidata': []})
+    for q in (g.variables, g.edges, g.attributes, g.instances, g.reentrancies, lambda: g.top):
+        q()
+    try:
+        guarded(_encode, g, None, None)
+    except BaseException:       # noqa: only the side effects of the earlier calls matter
+        pass
+    final = build_graph({'triples': triples, 'gtop': gtop, 'epidata': epi})
+    g.triples[:] = final.triples
+    g.epidata.clear()
+    g.epidata.update(final.epidata)
+    return g
+
+
 def judge(res, info, batch, stream, triples, top, gtop, epi, F=None, exp=None, copy_mode=None, history=None,
-          zero_key='content', want_key=False):
+          zero_key='content', want_key=False, prime=False):
     """One complete case: build, evaluate, record, queue the correspondence request."""
     def case():
         return make_case(stream, info.name, triples, top, gtop, epi, copy_mode, history)
     if F is None:
         F = facts(info.tbl, triples, top, gtop, push_vars_of(epi))
     g = build_graph({'triples': triples, 'gtop': gtop, 'epidata': epi, 'copy': copy_mode})
+    if prime and not copy_mode:
+        g = primed_graph(triples, gtop, epi) or g
+        res.stats[f'@{stream}:edited-in-place-after-queries'] += 1
     tag, fails, cfg, s = evaluate(info, g, top, F, exp, zero_key)
     res.n += 1
     res.stats[f'@{stream}:{F["verdict"]}/{tag}'] += 1
@@ -787,9 +851,14 @@ def exh_worker(item):
         perms = [perms[0]] + rng.sample(perms[1:], perm_limit - 1)
     hangs = 0
     for perm in perms:
+        if hangs > 3 or settled():
+            res.stats['skipped-after-hangs'] += 1
+            break
         triples = list(perm)
         alph = [marker_alphabet(t, variables, double_push, small) for t in triples]
         for top in sorted(variables):
+            if hangs > 3:
+                break
             F = facts(info.tbl, triples, top, None)
             exp = expected_triples(info.tbl, F['ts'], F['variables'])
             for assign in itertools.product(*alph):
@@ -928,6 +997,9 @@ def mark_worker(item):
     res, batch = Result(), Batch(exe)
     hangs = 0
     for i in range(count):
+        if i % 16 == 0 and settled():
+            res.stats['skipped-after-hangs'] += 1
+            break
         info = model_info(model_names[i % len(model_names)])
         V, triples = random_wf_graph(rng, info, nvars_max)
         rng.shuffle(triples)
@@ -961,8 +1033,11 @@ def mark_worker(item):
         copy_mode = rng.choice([None, None, None, 'deepcopy', 'pickle'])
         epi_l = [(t, tuple(ms)) for t, ms in epi.items() if ms]
         hist = [origin] + hist + ([kind] if kind != 'connected' else [])
+        prime = rng.random() < .25
+        if prime and not copy_mode:
+            hist = hist + ['edited-in-place-after-queries']
         tag, s, F = judge(res, info, batch, 'mark', triples, top, gtop, epi_l, copy_mode=copy_mode, history=hist,
-                          want_key=True)
+                          want_key=True, prime=prime)
         res.stats['origin-' + origin] += 1
         res.stats['model-' + info.name] += 1
         res.stats['kind-' + kind] += 1
@@ -1022,6 +1097,9 @@ def arb_worker(item):
     res, batch = Result(), Batch(exe)
     hangs = 0
     for i in range(count):
+        if i % 16 == 0 and settled():
+            res.stats['skipped-after-hangs'] += 1
+            break
         info = model_info(model_names[i % len(model_names)])
         zero = rng.choice([0, 0.0])
         n = rng.choice([0, 1, 1, 2, 2, 3, 3, 4, 5, 6, 8])
@@ -1113,6 +1191,9 @@ def driver_exe(chk):
 
 def run_stream(chk, stream, worker, items):
     t0 = time.time()
+    if settled():
+        chk.stat(f'{stream}:skipped-after-{HANG_STOP}-confirmed-hangs')
+        return
     results = common.pmap(worker, items, chunk=1)
     for idx, r in enumerate(results):
         merge(chk, stream, idx, r)
@@ -1142,6 +1223,21 @@ def run(chk):
     exe = driver_exe(chk)
     quick = chk.tier == 'quick'
     rng = chk.rng
+    import tempfile
+    fd, hang_file = tempfile.mkstemp(prefix='c06_hangs_')      # confirmed hangs, counted across the worker processes
+    os.close(fd)
+    os.environ['C06_HANG_FILE'] = hang_file
+    try:
+        _run_streams(chk, exe, quick, rng)
+    finally:
+        n = confirmed_hangs()
+        if n:
+            chk.stat('confirmed-hangs', n)
+        os.unlink(hang_file)
+        os.environ.pop('C06_HANG_FILE', None)
+
+
+def _run_streams(chk, exe, quick, rng):
 
     # ---- (1) bounded-exhaustive ------------------------------------------------------------
     items = []
@@ -1204,6 +1300,9 @@ def replay(obj):
         return 0
     info = model_info(case.get('model', 'default'))
     g = build_graph(case)
+    if 'edited-in-place-after-queries' in (case.get('history') or []):
+        g = primed_graph([tuple(t) for t in case['triples']], case.get('gtop'), case.get('epidata', [])) or g
+        print('(the graph object was queried and encoded under another variable name, then edited in place)')
     top = case.get('top')
     print('graph triples:', g.triples, ' explicit top:', g._top)
     print('markers:', {t: es for t, es in g.epidata.items()})
